@@ -1,8 +1,49 @@
+/-
+  Tie of the TRANSLATED Nano handler code (/repo/logger/nano_handler.go: the recursive, fuel-indexed
+  `appendNanoValue` :107, `WithAttrs` :47, `Handle` :69; regenerated into Glb/Generated/TrNano.lean on
+  every run, at the level of values: the handler state is `pre`, `buf` starts as a parameter, clone /
+  pool / lock / Write are left out; `slog.Value` accessors in Glb/Go/LibNano.lean) to the hand model
+  of Glb/Model/NanoHandler.lean (`appendNanoValue` / `appendNanoValues` mutual structural, `H`,
+  `withAttrs`, `handle`, `Rec`, `shortLevel`, `appendNanoSource`).
+
+      appendNanoValue_eq : depth a ≤ fuel →
+                           Tr.appendNanoValue fuel buf a colorful = .ok (appendNanoValue buf a)
+      Nano_WithAttrs_eq  : depthList as ≤ fuel →
+                           Nano_WithAttrs fuel h.pre as = .ok ((withAttrs h as).pre, ())
+      Nano_Handle_exact  : r.hasPC = decide (pc > 0) → r.line = itoa lineNo → depthList r.attrs ≤ fuel →
+                           0 ≤ r.level →
+                           (Nano_Handle fuel [] addSource h.pre … r.attrs).map (·.1) = handle addSource h r
+      Nano_Handle_eq     : the same for ALL levels after `Except.toOption`
+
+  `depth` is the nesting depth of the tree (leaf 1, group 1 + deepest child), so the fuel hypotheses
+  only say that the fuel does not run out; `Nano_WithAttrs fuel` / `Nano_Handle fuel` pass `fuel`
+  itself to `appendNanoValue`.  Full strength otherwise: every buffer, attribute tree (nested / empty
+  groups), handler state, record, `addSource`, `pc`; `colorful` does not influence the translated
+  `appendNanoValue` (colour off in the model; `Handle`/`WithAttrs` pass `false`).
+
+  Panics: the only possible one is the level-label index of `appendShortLevel` (`labelList[level]`).
+  Translated code and model panic on exactly the same levels (`level < 0 ∨ 19 < level`), but for
+  `level < 0` the PAYLOAD differs (`.other "index<0"` of `Glb.Go.idxI` vs the model's
+  `.other "index out of range (negative)"`), so `Nano_Handle_exact` is exact equality (ok-results and
+  out-of-range panics with payload) under `0 ≤ r.level`, and `Nano_Handle_eq` is equality after
+  `Except.toOption` for every level (ok-results agree, one side errs iff the other errs).
+
+  Proof: `appendNanoValue_eq` by induction on the fuel (no structural induction on the nested
+  inductive `Attr`); the range loop over attributes (the same loop for group members, `WithAttrs`
+  and `Handle`, state `(i, buf)`) is rewritten with `loop_eq`; the rest of the loop from index `i`
+  is the model's `appendNanoValues buf (as.drop i)`; each element's call is rewritten with the
+  induction hypothesis / `appendNanoValue_eq`.  The guards (`addSource && pc > 0`, `len(msg) > 0`,
+  `len(pre) > 0`, `len(attrs) > 0` / `== 0`) are case splits.
+
+      trDeriveAll_eq           : a chain of translated `WithAttrs` (`WithGroup` is `return h`) = `deriveAll`
+      nano_with_law_translated : C03b `nano_with_law` for the translated `WithAttrs` + `Handle`
+-/
 import Glb.Go.Lemmas
 import Glb.Go.LibNano
 import Glb.Generated.TrNano
 import Glb.Model.NanoHandler
 import Glb.Tie.TrLogger
+import Glb.Props.C03b
 
 namespace Glb.Tie.TrNano
 open Glb.Go Glb.NanoHandler Glb.Go.LibNano
@@ -91,5 +132,212 @@ theorem appendNanoValue_eq (fuel : Nat) (buf : Bytes) (a : Attr) (colorful : Boo
       · nano_loop_step
       · simp
       · simp; omega
+
+/-- with the canonical fuel `depth a` -/
+theorem appendNanoValue_eq_depth (buf : Bytes) (a : Attr) (colorful : Bool) :
+    Glb.Tr.Logger.appendNanoValue (depth a) buf a colorful
+      = .ok (Glb.NanoHandler.appendNanoValue buf a) :=
+  appendNanoValue_eq (depth a) buf a colorful (Nat.le_refl _)
+
+/-- too little fuel is the only way to fail: with fuel 0 the translated function reports `fuel` -/
+theorem appendNanoValue_fuel0 (buf : Bytes) (a : Attr) (colorful : Bool) :
+    Glb.Tr.Logger.appendNanoValue 0 buf a colorful = .error (.other "fuel") := by
+  rw [Glb.Tr.Logger.appendNanoValue]
+
+/-- **the translated `WithAttrs` is the model's `withAttrs`** on the handler state `pre`, for every
+    handler state and attribute list (no panic), whenever the fuel covers the deepest tree -/
+theorem Nano_WithAttrs_eq (fuel : Nat) (h : H) (as : List Attr) (hf : depthList as ≤ fuel) :
+    Glb.Tr.Logger.Nano_WithAttrs fuel h.pre as = .ok ((withAttrs h as).pre, ()) := by
+  unfold Glb.Tr.Logger.Nano_WithAttrs
+  dsimp only
+  by_cases has : as = []
+  · subst has
+    simp [withAttrs, pure, Except.pure]
+  · have hne : ((as.length : Int) == 0) = false := by
+      cases as with
+      | nil => exact absurd rfl has
+      | cons x xs => simp; omega
+    have hne' : (as.length == 0) = false := by
+      cases as with
+      | nil => exact absurd rfl has
+      | cons x xs => simp
+    simp only [len_eq, hne, Bool.false_eq_true, if_false]
+    have hrec : ∀ (b : Bytes) (c : Attr), c ∈ as →
+        Glb.Tr.Logger.appendNanoValue fuel b c false
+          = .ok (Glb.NanoHandler.appendNanoValue b c) :=
+      fun b c hc => appendNanoValue_eq fuel b c false (Nat.le_trans (depth_mem as c hc) hf)
+    rw [loop_eq (σ := Int × Bytes) (ρ := Bytes × Unit)
+      (Inv := fun st => 0 ≤ st.1 ∧ st.1 ≤ as.length)
+      (measure := fun st => ((as.length : Int) - st.1).toNat)
+      (model := fun st => .ok (.inl ((as.length : Int),
+        appendNanoValues st.2 (as.drop st.1.toNat))))]
+    · simp [bind, Except.bind, pure, Except.pure, withAttrs, hne']
+    · nano_loop_step
+    · simp
+    · simp; omega
+
+/-- **the translated `Handle` is the model's `handle`**, exact equality (bytes, and the out-of-range
+    panic of the level label with its payload) for every handler state, record and `addSource`, under
+    `0 ≤ r.level` (below that both sides panic, with different payloads: see `Nano_Handle_eq`);
+    `r.hasPC` is the translated code's `pc > 0`, `r.line` the decimal text of its line number -/
+theorem Nano_Handle_exact (fuel : Nat) (addSource : Bool) (h : H) (r : Rec) (pc lineNo : Int)
+    (hpc : r.hasPC = decide (pc > 0)) (hline : r.line = Glb.Go.Lib.itoa lineNo)
+    (hf : depthList r.attrs ≤ fuel) (hlevel : 0 ≤ r.level) :
+    (Glb.Tr.Logger.Nano_Handle fuel [] addSource h.pre r.time r.level pc r.file lineNo r.msg
+        r.attrs).map (·.1)
+      = handle addSource h r := by
+  obtain ⟨pre⟩ := h
+  obtain ⟨time, level, hasPC, file, line, msg, as⟩ := r
+  dsimp only at hpc hline hf hlevel ⊢
+  subst hline
+  subst hpc
+  unfold Glb.Tr.Logger.Nano_Handle
+  dsimp only
+  rw [Glb.Tie.TrLogger.appendShortLevel_exact _ _ hlevel]
+  unfold handle
+  dsimp only
+  cases hlv : shortLevel level with
+  | error e => simp [Except.map, bind, Except.bind]
+  | ok lvl =>
+    have hrec : ∀ (b : Bytes) (c : Attr), c ∈ as →
+        Glb.Tr.Logger.appendNanoValue fuel b c false
+          = .ok (Glb.NanoHandler.appendNanoValue b c) :=
+      fun b c hc => appendNanoValue_eq fuel b c false (Nat.le_trans (depth_mem as c hc) hf)
+    have hp0 : decide (len ([] : Bytes) > 0) = false := by simp
+    have hp1 : ∀ (x : UInt8) (xs : Bytes), decide (len (x :: xs) > 0) = true := by
+      intro x xs; simp
+    have ha0 : decide (len ([] : List Attr) > 0) = false := by simp
+    have ha1 : as ≠ [] → decide (len as > 0) = true := by
+      intro hne
+      cases as with
+      | nil => exact absurd rfl hne
+      | cons x xs => simp
+    by_cases has : as = []
+    · subst has
+      cases addSource <;> cases hpcv : decide (pc > 0) <;> cases pre <;> cases msg <;>
+        simp [Except.map, bind, Except.bind, pure, Except.pure,
+          Glb.Tie.TrLogger.appendNanoSource_eq]
+    · have ha1' := ha1 has
+      have hlen : as.length > 0 := by
+        cases as with
+        | nil => exact absurd rfl has
+        | cons x xs => simp
+      cases addSource <;> cases hpcv : decide (pc > 0) <;> cases pre <;> cases msg <;>
+      ( simp only [Except.map, bind, Except.bind, pure, Except.pure, hp0, hp1, ha1',
+          Glb.Tie.TrLogger.appendNanoSource_eq, Bool.and_true, Bool.and_false,
+          Bool.false_eq_true, if_false, if_true]
+        rw [loop_eq (σ := Int × Bytes) (ρ := Bytes × Unit)
+          (Inv := fun st => 0 ≤ st.1 ∧ st.1 ≤ as.length)
+          (measure := fun st => ((as.length : Int) - st.1).toNat)
+          (model := fun st => .ok (.inl ((as.length : Int),
+            appendNanoValues st.2 (as.drop st.1.toNat))))]
+        · simp [hlen]
+        · nano_loop_step
+        · simp
+        · simp; omega )
+
+private theorem toOption_bind_none {α β} (x : M α) (f : α → M β) (hx : x.toOption = none) :
+    (x >>= f).toOption = none := by
+  cases x with
+  | ok v => simp [Except.toOption] at hx
+  | error e => simp [bind, Except.bind, Except.toOption]
+
+/-- when `appendShortLevel` panics (negative level: `labelList[l]`), so does the translated `Handle`
+    (first effectful statement) -/
+theorem Nano_Handle_level_panics (fuel : Nat) (addSource : Bool) (pre time : Bytes) (level pc : Int)
+    (file : Bytes) (lineNo : Int) (msg : Bytes) (as : List Attr) (hl : level < 0) :
+    (Glb.Tr.Logger.Nano_Handle fuel [] addSource pre time level pc file lineNo msg as).toOption
+      = none := by
+  unfold Glb.Tr.Logger.Nano_Handle
+  dsimp only
+  refine toOption_bind_none _ _ ?_
+  rw [Glb.Tie.TrLogger.appendShortLevel_eq]
+  simp [shortLevel, hl, Except.map, Except.toOption]
+
+/-- **the translated `Handle` is the model's `handle`** for ALL inputs (every level), as equality after
+    `Except.toOption`: ok-results agree, and one side panics iff the other does (payload erased) -/
+theorem Nano_Handle_eq (fuel : Nat) (addSource : Bool) (h : H) (r : Rec) (pc lineNo : Int)
+    (hpc : r.hasPC = decide (pc > 0)) (hline : r.line = Glb.Go.Lib.itoa lineNo)
+    (hf : depthList r.attrs ≤ fuel) :
+    ((Glb.Tr.Logger.Nano_Handle fuel [] addSource h.pre r.time r.level pc r.file lineNo r.msg
+        r.attrs).map (·.1)).toOption
+      = (handle addSource h r).toOption := by
+  by_cases hlevel : 0 ≤ r.level
+  · rw [Nano_Handle_exact fuel addSource h r pc lineNo hpc hline hf hlevel]
+  · have h1 := Nano_Handle_level_panics fuel addSource h.pre r.time r.level pc r.file lineNo r.msg
+      r.attrs (by omega)
+    have h2 : shortLevel r.level = .error (.other "index out of range (negative)") := by
+      unfold shortLevel
+      rw [if_pos (by omega)]
+    cases hj : Glb.Tr.Logger.Nano_Handle fuel [] addSource h.pre r.time r.level pc r.file lineNo
+        r.msg r.attrs with
+    | ok v => rw [hj] at h1; simp [Except.toOption] at h1
+    | error e => simp [handle, h2, bind, Except.bind, Except.map, Except.toOption]
+
+/-! ### derivation chains and the `with` law for the translated methods -/
+
+/-- deepest attribute tree of a derivation chain (the fuel the translated `WithAttrs` calls need) -/
+def chainDepth : List Deriv → Nat
+  | [] => 0
+  | .attrs as :: ds => max (depthList as) (chainDepth ds)
+  | .group _ :: ds => chainDepth ds
+
+/-- one derivation step with the TRANSLATED methods, on the handler state `pre`
+    (`WithGroup` is `return h` in nano_handler.go: nothing to translate) -/
+def trDerive (fuel : Nat) (pre : Bytes) : Deriv → M Bytes
+  | .attrs as => (Glb.Tr.Logger.Nano_WithAttrs fuel pre as).map (·.1)
+  | .group _ => pure pre
+
+/-- a chain of `WithAttrs` / `WithGroup` with the translated methods -/
+def trDeriveAll (fuel : Nat) (pre : Bytes) : List Deriv → M Bytes
+  | [] => pure pre
+  | d :: ds => trDerive fuel pre d >>= fun pre' => trDeriveAll fuel pre' ds
+
+theorem trDerive_eq (fuel : Nat) (h : H) (d : Deriv) (hf : chainDepth [d] ≤ fuel) :
+    trDerive fuel h.pre d = .ok (derive h d).pre := by
+  cases d with
+  | attrs as =>
+    have hf' : depthList as ≤ fuel := by simp only [chainDepth] at hf; omega
+    simp only [trDerive, Nano_WithAttrs_eq fuel h as hf', Except.map, derive]
+  | group g => rfl
+
+theorem trDeriveAll_eq (fuel : Nat) (h : H) (ds : List Deriv) (hf : chainDepth ds ≤ fuel) :
+    trDeriveAll fuel h.pre ds = .ok (deriveAll h ds).pre := by
+  induction ds generalizing h with
+  | nil => rfl
+  | cons d ds ih =>
+    have h1 : chainDepth [d] ≤ fuel ∧ chainDepth ds ≤ fuel := by
+      cases d <;> simp only [chainDepth] at hf ⊢ <;> omega
+    simp only [trDeriveAll, trDerive_eq fuel h d h1.1, bind, Except.bind]
+    rw [ih (derive h d) h1.2]
+    simp [deriveAll]
+
+theorem depthList_append (as bs : List Attr) :
+    depthList (as ++ bs) = max (depthList as) (depthList bs) := by
+  induction as with
+  | nil => simp [depthList]
+  | cons a as ih => simp only [List.cons_append, depthList, ih]; omega
+
+/-- **C03b `nano_with_law` for the translated code**: the translated `WithAttrs` followed by the
+    translated `Handle` writes what the translated `Handle` of the original handler writes for the
+    record with the attributes prepended (every handler state, attribute list, record; level ≥ 0 for
+    the exact form — for negative levels both sides panic). -/
+theorem nano_with_law_translated (fuel : Nat) (addSource : Bool) (h : H) (as : List Attr) (r : Rec)
+    (pc lineNo : Int) (hpc : r.hasPC = decide (pc > 0)) (hline : r.line = Glb.Go.Lib.itoa lineNo)
+    (hfa : depthList as ≤ fuel) (hf : depthList r.attrs ≤ fuel) (hlevel : 0 ≤ r.level) :
+    (Glb.Tr.Logger.Nano_WithAttrs fuel h.pre as >>= fun st =>
+        (Glb.Tr.Logger.Nano_Handle fuel [] addSource st.1 r.time r.level pc r.file lineNo r.msg
+          r.attrs).map (·.1))
+      = (Glb.Tr.Logger.Nano_Handle fuel [] addSource h.pre r.time r.level pc r.file lineNo r.msg
+          (as ++ r.attrs)).map (·.1) := by
+  rw [Nano_WithAttrs_eq fuel h as hfa]
+  simp only [bind, Except.bind]
+  rw [Nano_Handle_exact fuel addSource (withAttrs h as) r pc lineNo hpc hline hf hlevel]
+  have hf2 : depthList ({ r with attrs := as ++ r.attrs } : Rec).attrs ≤ fuel := by
+    simp only [depthList_append]; omega
+  have := Nano_Handle_exact fuel addSource h { r with attrs := as ++ r.attrs } pc lineNo hpc hline
+    hf2 hlevel
+  dsimp only at this
+  rw [this, Glb.C03b.nano_with_law]
 
 end Glb.Tie.TrNano
